@@ -599,4 +599,11 @@ def replaceStep (S : Schema) (doc : Node) (f t : Nat) (sl : Slice) : FM (Option 
       | some false => fitterFit S doc rf rt sl (fitFuel S sl)
     | _, _ => throw .raises
 
+/-- `Transform.delete_range(f, t)`: the step it records (via `self.delete(f', t')` =
+    `self.replace(f', t', Slice.empty)` = `replace_step`); `.ok none` = no step -/
+def deleteRangeStep (S : Schema) (doc : Node) (f t : Nat) : FM (Option Step) :=
+  match deleteRangeTarget S doc f t with
+  | none => throw .raises
+  | some (a, b) => replaceStep S doc a b Slice.empty
+
 end PM
